@@ -628,7 +628,7 @@ Proof.
   destruct e as [e'|b].
   - assert (Hstep : ffr_step sh init async rl (FFR f r) (Rev e') = FFR (ff_step sh f e') r).
     { destruct e'; try reflexivity; cbn [ffr_step fr_ff fr_rst ffr_process ff_step];
-        (destruct H as [[_ ->]|[-> _]]; [rewrite andb_false_r|]; reflexivity). }
+        (destruct H as [[_ ->]|[-> _]]; [destruct r|]; reflexivity). }
     cbn [fold_left]. rewrite Hstep. cbn [erase_rst flat_map app fold_left]. apply IH.
     destruct H as [H|[Hr Hn]]; [left; exact H|right; split; [exact Hr|exact Hn]].
   - cbn [fold_left ffr_step fr_ff fr_rst erase_rst flat_map app].
@@ -694,7 +694,8 @@ Proof.
   { unfold s, ffr_run. rewrite ffr_length. cbn. apply ff_chain_length. }
   destruct s as [[cur fl] r]. cbn [fr_rst fr_ff ff_flops ff_in] in *. subst r.
   cbn [fold_left ffr_step fr_ff fr_rst ffr_process ff_flops ff_in andb negb].
-  rewrite andb_false_r. rewrite Hl. rewrite fold_left_map_Rev. cbn [fr_ff].
+  rewrite !andb_false_r. unfold ffr_process. cbn [ff_flops ff_in andb negb]. rewrite Hl.
+  rewrite fold_left_map_Rev. cbn [fr_ff].
   apply ff_latency_from. assumption.
 Qed.
 
